@@ -1,7 +1,7 @@
 #!/bin/sh
 # usage: eval_seeded.sh <seeded dir name> <check id> ...   (pairs)  -- runs each check against a scratch worktree with the patch applied
 # (ZORG_SRC points at the worktree, /repo itself is not touched); appends one line per pair to /tmp/eval_seeded.log
-WT=/tmp/ev
+WT=${WT:-/tmp/ev}
 while [ $# -ge 2 ]; do
   S="$1"; ID="$2"; shift 2
   git -C $WT checkout -q -- . ; git -C $WT clean -qfd
